@@ -104,7 +104,7 @@ func c08Candidates(name string, lvl int) []string {
 					"v1.0.1-0."+t+"-"+rev, "v1.1.0-0."+t+"-"+rev, "v1.0.0-0."+t+"-"+rev, "v2.0.0-0."+t+"-"+rev)
 			}
 		}
-		out = append(out, "v1.0.0-rc.0", "v1.0.0-rc.1", "v1.0.0-rc.0.1", "v1.0.0-0", "v1.0.1-0", "v1.0.0-pseudo", "v1.0.0+incompatible", "v2.0.0+incompatible")
+		out = append(out, "v1.2.3-20200101000000-abcdef123456", "v1.1.0-20200101000000-abcdef123456", "v1.0.1-20200101000000-abcdef123456", "v1.0.0-rc.0", "v1.0.0-rc.1", "v1.0.0-rc.0.1", "v1.0.0-0", "v1.0.1-0", "v1.0.0-pseudo", "v1.0.0+incompatible", "v2.0.0+incompatible")
 	}
 	out = append(out, gen.SlotFamily(name)...)
 	return out
